@@ -11,6 +11,41 @@ static bool wrote_multi(const Program &p, const RunResult &r) { return r.st.byte
 
 static void reg(const Profile &p) { registry()[p.id] = p; }
 
+// logical comparison of the final files of two runs of (variants of) one program: dimensions, attributes, variables, record count and every
+// element the reference model knows to be determinate (independent decoder on both images).  Returns "" when equal.
+static std::string final_files_differ(const Program &q, const RunResult &ra, const RunResult &rb, bool ignore_logs = false) {
+    const Model *fm = nullptr; for (auto it = q.ops.rbegin(); it != q.ops.rend() && !fm; ++it) if (it->msnap) fm = it->msnap.get();
+    auto is_log = [](const std::string &n) { return n.size() > 5 && (n.compare(n.size() - 5, 5, ".meta") == 0 || n.compare(n.size() - 5, 5, ".data") == 0); };
+    for (auto &kv : ra.final_files) {
+        if (ignore_logs && is_log(kv.first)) continue;
+        auto jt = rb.final_files.find(kv.first);
+        if (jt == rb.final_files.end() || jt->second.exists != kv.second.exists) return "file " + kv.first + " exists under one configuration only";
+        if (!kv.second.exists) continue;
+        cdf::File da, db; if (!cdf::decode_header(kv.second, da) || !cdf::decode_header(jt->second, db)) continue;   // reported by the model oracle of the run
+        std::string why;
+        auto same_atts = [&](const std::vector<cdf::Att> &x, const std::vector<cdf::Att> &y, const std::string &ctx) { if (x.size() != y.size()) { why = ctx + ": attribute count"; return; } for (size_t i = 0; i < x.size(); i++) if (x[i].name != y[i].name || x[i].type != y[i].type || x[i].nelems != y[i].nelems || x[i].raw != y[i].raw) { why = ctx + ": attribute '" + x[i].name + "'"; return; } };
+        if (da.version != db.version) why = "format version"; else if (da.numrecs != db.numrecs) why = "record count " + std::to_string(da.numrecs) + " vs " + std::to_string(db.numrecs);
+        else if (da.dims.size() != db.dims.size() || da.vars.size() != db.vars.size()) why = "number of dimensions / variables";
+        for (size_t i = 0; i < da.dims.size() && why.empty(); i++) if (da.dims[i].name != db.dims[i].name || da.dims[i].len != db.dims[i].len) why = "dimension " + std::to_string(i);
+        if (why.empty()) same_atts(da.gatts, db.gatts, "global");
+        const MFile *mf = nullptr; if (fm) { auto d = fm->disk.find(kv.first); if (d != fm->disk.end()) mf = &d->second; }
+        for (size_t i = 0; i < da.vars.size() && why.empty(); i++) {
+            const cdf::Var &x = da.vars[i], &y = db.vars[i];
+            if (x.name != y.name || x.type != y.type || x.dimids != y.dimids) { why = "variable " + std::to_string(i) + " definition"; break; }
+            same_atts(x.atts, y.atts, "variable '" + x.name + "'"); if (!why.empty()) break;
+            if (!mf || i >= mf->vars.size()) continue;
+            const MVar &mv = mf->vars[i];
+            for (size_t e = 0; e < mv.cells.size(); e++) {
+                if (mv.cells[e].st != CS_VALUE && mv.cells[e].st != CS_FILL) continue;
+                long long ia, ib; double fa, fb; bool isf; bool oka = cdf::read_elem(kv.second, da, x, (long long)e, ia, fa, isf), okb = cdf::read_elem(jt->second, db, y, (long long)e, ib, fb, isf);
+                if (oka != okb || ia != ib || !(fa == fb || (fa != fa && fb != fb))) { why = "variable '" + x.name + "' element " + std::to_string(e) + ": " + std::to_string(fa) + " vs " + std::to_string(fb); break; }
+            }
+        }
+        if (!why.empty()) return "final file " + kv.first + " differs logically between the two runs: " + why;
+    }
+    return "";
+}
+
 struct Init {
     Init() {
         {   // C01 blocking put/get round trip
@@ -349,38 +384,65 @@ struct Init {
                     if (x.executed != y.executed || rc_diff || st_diff) { diff((int)i, op_to_string(q.ops[i], r) + ": rank " + std::to_string(r) + " got " + (x.executed ? ncmpi_strerrno(x.rc) : "(not executed)") + " under configuration A but rank " + std::to_string(perm[r]) + " got " + (y.executed ? ncmpi_strerrno(y.rc) : "(not executed)") + " under configuration B" + (st_diff ? " (request statuses differ)" : "")); break; }
                 }
                 // ---- same logical content of the final files
-                const Model *fm = nullptr; for (auto it = q.ops.rbegin(); it != q.ops.rend() && !fm; ++it) if (it->msnap) fm = it->msnap.get();
-                for (auto &kv : ra.final_files) {
-                    if (!rb.violations.empty()) break;
-                    auto jt = rb.final_files.find(kv.first);
-                    if (jt == rb.final_files.end() || jt->second.exists != kv.second.exists) { diff(-1, "file " + kv.first + " exists under one configuration only"); break; }
-                    if (!kv.second.exists) continue;
-                    cdf::File da, db; if (!cdf::decode_header(kv.second, da) || !cdf::decode_header(jt->second, db)) continue;   // reported by the model oracle of the run
-                    std::string why;
-                    auto same_atts = [&](const std::vector<cdf::Att> &x, const std::vector<cdf::Att> &y, const std::string &ctx) { if (x.size() != y.size()) { why = ctx + ": attribute count"; return; } for (size_t i = 0; i < x.size(); i++) if (x[i].name != y[i].name || x[i].type != y[i].type || x[i].nelems != y[i].nelems || x[i].raw != y[i].raw) { why = ctx + ": attribute '" + x[i].name + "'"; if (getenv("VERIF_DEBUG")) { auto hx = [](const std::vector<uint8_t> &v) { std::string t; char b[4]; for (auto c : v) { snprintf(b, 4, "%02x", c); t += b; } return t; }; why += " A=" + hx(x[i].raw) + " B=" + hx(y[i].raw) + " nelems " + std::to_string(x[i].nelems) + "/" + std::to_string(y[i].nelems); } return; } };
-                    if (da.version != db.version) why = "format version"; else if (da.numrecs != db.numrecs) why = "record count " + std::to_string(da.numrecs) + " vs " + std::to_string(db.numrecs);
-                    else if (da.dims.size() != db.dims.size() || da.vars.size() != db.vars.size()) why = "number of dimensions / variables";
-                    for (size_t i = 0; i < da.dims.size() && why.empty(); i++) if (da.dims[i].name != db.dims[i].name || da.dims[i].len != db.dims[i].len) why = "dimension " + std::to_string(i);
-                    if (why.empty()) same_atts(da.gatts, db.gatts, "global");
-                    const MFile *mf = nullptr; if (fm) { auto d = fm->disk.find(kv.first); if (d != fm->disk.end()) mf = &d->second; }
-                    for (size_t i = 0; i < da.vars.size() && why.empty(); i++) {
-                        const cdf::Var &x = da.vars[i], &y = db.vars[i];
-                        if (x.name != y.name || x.type != y.type || x.dimids != y.dimids) { why = "variable " + std::to_string(i) + " definition"; break; }
-                        same_atts(x.atts, y.atts, "variable '" + x.name + "'"); if (!why.empty()) break;
-                        if (!mf || i >= mf->vars.size()) continue;
-                        const MVar &mv = mf->vars[i];
-                        for (size_t e = 0; e < mv.cells.size(); e++) {
-                            if (mv.cells[e].st != CS_VALUE && mv.cells[e].st != CS_FILL) continue;
-                            long long ia, ib; double fa, fb; bool isf; bool oka = cdf::read_elem(kv.second, da, x, (long long)e, ia, fa, isf), okb = cdf::read_elem(jt->second, db, y, (long long)e, ib, fb, isf);
-                            if (oka != okb || ia != ib || !(fa == fb || (fa != fa && fb != fb))) { why = "variable '" + x.name + "' element " + std::to_string(e) + ": " + std::to_string(fa) + " vs " + std::to_string(fb); break; }
-                        }
-                    }
-                    if (!why.empty()) diff(-1, "final file " + kv.first + " differs logically between the two configurations: " + why);
-                }
+                { std::string why = final_files_differ(q, ra, rb); if (!why.empty() && rb.violations.empty()) diff(-1, why); }
                 return rb;
             };
             p.nontrivial = [](const Program &q, const RunResult &r) { return r.completed && r.st.bytes_written > 0; };
             p.assumptions = {"only configurations with n' >= n ranks are paired (work is re-assigned to other ranks and extra ranks idle; an arbitrary re-partition of one rank's request over several ranks is not generated)", "hint values are drawn from the valid domain (hash sizes >= 1, positive sizes)"};
+            p.quick_s = 40; p.thorough_s = 600;
+            reg(p);
+        }
+        {   // C12 burst-buffer driver is transparent to the application
+            Profile p; p.id = "C12"; p.level = "exploration";
+            p.technique = "deterministic simulation with fault injection: generated programs run through the real burst-buffer driver (log files in the simulated POSIX file system, short reads/writes injected) and again through the default driver; reference-model oracles at every read, record-count inquiry and raw-image checkpoint, cross-driver comparison of the destination file, log-file census after close";
+            p.rule = "one seed = one program inside the documented fragment (no element written twice between flushes, no vard, no cancel, no fill_var_rec) of blocking and nonblocking writes (var/var1/vara/vars/varm/varn, flexible buffers, all memory types) and reads on fixed and record variables by 1..4 ranks in collective and independent mode with redefinitions, executed with nc_burst_buf=enable, flush-buffer size in {1 B (one entry per round), 8, 64, 512, 4096, unlimited}, shared (per node) or per-process logs with block size knob 32..256 B, log directory hint, initial table sizes 1..4 (growth paths); half of the seeds inject 1..3 short POSIX reads/writes into log I/O; oracles: every rank reads back its own earlier writes (flush on read), after wait / flush / sync / redef / close + barrier the raw file holds every earlier write of every rank and the agreed record count (checkpoint decode), record count reported by each rank within [agreed, agreed + staged], the same program through the default driver leaves a logically equal file, after close no *.meta / *.data log file exists (all exist when nc_burst_buf_del_on_close=disable); non-trivial = run completed, >= 1 write was staged and flushed";
+            p.fault_kinds = {"posix-short-io"};
+            p.gen = [](uint64_t seed, bool th) {
+                GenParams g; g.bb = true; g.max_np = 4; g.max_data_ops = th ? 24 : 14; g.nonblocking = true; g.redef = (seed % 3 != 0); g.fill = false; g.all_forms = (seed % 2 == 0); g.hints = false; g.knobs = false; g.big = (seed % 5 == 0); g.atts = (seed % 4 == 0); g.checkpoint_each = (seed % 3 == 0);
+                Program q = gen_program(seed, g, "C12");
+                sim::Rng rng(seed * 0x9E3779B1ULL + 12);
+                static const long fb[] = {1, 8, 64, 512, 4096, 0};
+                bool shared = rng.chance(0.4), keep = rng.chance(0.15); long fbs = fb[rng.below(6)]; bool dirhint = rng.chance(0.5);
+                for (auto &op : q.ops) if (op.kind == OP_CREATE && op.hints.count("nc_burst_buf")) {
+                    if (fbs) op.hints["nc_burst_buf_flush_buffer_size"] = std::to_string(fbs);
+                    if (shared) op.hints["nc_burst_buf_shared_logs"] = "enable";
+                    if (keep) op.hints["nc_burst_buf_del_on_close"] = "disable";
+                    if (dirhint) op.hints["nc_burst_buf_dirname"] = "/bb";
+                }
+                if (shared) q.cfg.sim.knobs["NCBB_BLOCK_SIZE"] = (long)(1 << rng.range(5, 8));
+                if (rng.chance(0.5)) q.cfg.sim.knobs["NCBB_PUT_ARRAY_SIZE"] = (long)rng.range(1, 4);
+                if (rng.chance(0.5)) q.cfg.sim.knobs["NCBB_LOG_BUFFER_SIZE"] = (long)(1 << rng.range(5, 9));
+                if (rng.chance(0.5)) q.cfg.sim.knobs["NCBB_LOG_ARRAY_SIZE"] = (long)rng.range(1, 4);
+                if (rng.chance(0.3)) q.cfg.sim.knobs["NC_REQUEST_CHUNK"] = (long)rng.range(1, 4);
+                if (seed % 2 && !q.ops.empty()) { int nf = 1 + (int)rng.below(3); for (int i = 0; i < nf; i++) { sim::Fault f; f.kind = sim::F_POSIX_SHORT; f.rank = (int)rng.below(q.cfg.sim.nprocs); f.op = (int)rng.below(q.ops.size()); f.nth = (int)rng.below(4); f.arg = 2 + (int)rng.below(7); f.errclass = 1; /* log-file I/O only */ q.faults.push_back(f); } }
+                return q;
+            };
+            p.check = [](Program &q) {
+                {   // closing a file while nonblocking requests are pending is an application error (NC_EPENDING) on which the two drivers legitimately differ: outside the fragment
+                    Program t = q; Model m; annotate(m, t); bool out = false;
+                    for (auto &op : t.ops) if (!op.skip && (op.kind == OP_CLOSE || op.kind == OP_ABORT)) for (int c : op.exp_rc_rank) if (c == NC_EPENDING) out = true;
+                    for (auto &f : m.files) if (f.open) for (auto &rk : f.ranks) for (auto &rq : rk.reqs) if (rq.live) out = true;
+                    if (out) { RunResult r; r.completed = true; return r; }
+                }
+                RunOpts o; RunResult rb = run_program(q, o);
+                if (!rb.violations.empty()) return rb;
+                auto is_log = [](const std::string &n) { return n.size() > 5 && (n.compare(n.size() - 5, 5, ".meta") == 0 || n.compare(n.size() - 5, 5, ".data") == 0); };
+                auto viol = [&](const char *kind, const std::string &d) { sim::ViolationInfo v; v.kind = kind; v.detail = d; rb.violations.push_back(v); };
+                bool keep = false, bb = false; for (auto &op : q.ops) if (!op.skip && op.kind == OP_CREATE && op.hints.count("nc_burst_buf")) { bb = true; auto k = op.hints.find("nc_burst_buf_del_on_close"); if (k != op.hints.end() && k->second == "disable") keep = true; }
+                int nlogs = 0; std::string first; for (auto &kv : rb.final_files) if (is_log(kv.first) && kv.second.exists) { nlogs++; if (first.empty()) first = kv.first; }
+                if (bb && !keep && nlogs) { viol("oracle:log-left-behind", std::to_string(nlogs) + " burst-buffer log file(s) still exist after every file was closed, e.g. " + first); return rb; }
+                if (bb && keep && !nlogs && rb.st.bytes_written > 0) { bool enddef = false; for (auto &op : q.ops) if (!op.skip && (op.kind == OP_ENDDEF || op.kind == OP_ENDDEF2 || op.kind == OP_CLOSE)) enddef = true; if (enddef) { viol("oracle:log-not-retained", "nc_burst_buf_del_on_close=disable but no log file exists after close"); return rb; } }
+                // ---- the same program through the default driver
+                Program d = q; d.faults.clear(); for (auto &op : d.ops) for (auto it = op.hints.begin(); it != op.hints.end();) if (it->first.compare(0, 12, "nc_burst_buf") == 0) it = op.hints.erase(it); else ++it;
+                RunResult rd = run_program(d, o);
+                rb.st.steps += rd.st.steps; rb.st.coll += rd.st.coll; rb.st.fileio += rd.st.fileio;
+                if (!rd.violations.empty()) { rd.violations[0].detail += " [same program through the default driver]"; rd.faults = rb.faults; return rd; }
+                std::string why = final_files_differ(q, rb, rd, true);
+                if (!why.empty()) viol("oracle:driver-diff", why + " (burst-buffer driver vs default driver)");
+                return rb;
+            };
+            p.nontrivial = [](const Program &q, const RunResult &r) { return r.completed && r.st.bytes_written > 0 && r.st.posix > 0; };
+            p.assumptions = {"programs stay inside the documented limitations of the driver (README.burst_buffering.md, known issues 2 and 3) and use only calls whose behaviour the property states; request counts, attached-buffer accounting and cancellation are not compared", "return codes of range errors are not exercised (the driver reports them at flush time, known issue 1)", "short reads/writes are injected, EINTR is not (the driver reports it as an error, which the property does not forbid)"};
             p.quick_s = 40; p.thorough_s = 600;
             reg(p);
         }
